@@ -1,3 +1,4 @@
+import GBS.Lemmas.ReprNat
 import GBS.Extracted.Mixture
 import GBS.Model.Parse
 import GBS.Lemmas.DistRoundTrip
@@ -161,5 +162,44 @@ theorem C01_uniform_roundtrip_nat (m n : Nat) :
   refine C01_uniform_roundtrip _ _ ?_ ?_ (truncRat_nat m) (truncRat_nat n)
   · rw [intStr_nat]; exact TokOK_nat m
   · rw [intStr_nat]; exact TokOK_nat n
+
+/-- **C01 / C11 (the text form reproduces the parameters — unconditional for whole-number parameters)**: for all whole numbers `1 ≤ a, b < 10^15`
+(printed `ddd.0` by `repr`) the printed distribution reads back as the same family with the same parameters; nothing is assumed about the
+printed text any more: `reprFloat_nat` computes it and `TokOK_decimal` reads it. -/
+theorem C01_distribution_roundtrip_nat (a b : Nat) (ha : 0 < a) (hb : 0 < b) (ha' : a < 10 ^ 15) (hb' : b < 10 ^ 15) :
+    parseDist (printDist { fam := .gauss, params := [(a : Rat), (b : Rat)] }) = .ok { fam := .gauss, params := [(a : Rat), (b : Rat)] } ∧
+    parseDist (printDist { fam := .logNormal, params := [(a : Rat), (b : Rat)] }) = .ok { fam := .logNormal, params := [(a : Rat), (b : Rat)] } ∧
+    (a ≠ b → parseDist (printDist { fam := .schulzZimm, params := [(a : Rat), (b : Rat)] }) = .ok { fam := .schulzZimm, params := [(a : Rat), (b : Rat)] }) ∧
+    parseDist (printDist { fam := .florySchulz, params := [(a : Rat)] }) = .ok { fam := .florySchulz, params := [(a : Rat)] } ∧
+    parseDist (printDist { fam := .poisson, params := [(a : Rat)] }) = .ok { fam := .poisson, params := [(a : Rat)] } := by
+  have hla : (Nat.toDigits 10 a).length ≤ 15 := (Nat.length_toDigits_le_iff (by omega) (by omega)).mpr ha'
+  have hlb : (Nat.toDigits 10 b).length ≤ 15 := (Nat.length_toDigits_le_iff (by omega) (by omega)).mpr hb'
+  obtain ⟨h1, h2, h3, h4, h5⟩ := C01_distribution_roundtrip (a : Rat) (b : Rat) (DistNumOK_nat a ha hla) (DistNumOK_nat b hb hlb)
+  exact ⟨h1, h2, fun hne => h3 (by exact_mod_cast hne), h4, h5 (parseFloat_numStr_nat a ha hla)⟩
+
+/-- e.g. `gauss(5000.0, 50.0)`, `schulz_zimm(1500.0, 1400.0)`, `poisson(65.0)` -/
+example : (0 < 5000 ∧ 5000 < 10 ^ 15) ∧ numStr (5000 : Nat) = "5000.0".toList := ⟨by omega, by decide +kernel⟩
+
+
+/-- **C01 (mixture specifiers — unconditional for whole numbers)**: `.|m|` reads back as the mass `m` for every whole number `1 ≤ m < 10^15`,
+and `.|p%|` as the percentage `p` for every whole `1 ≤ p ≤ 100`; **descriptor weights** likewise for whole weights from 2 -/
+theorem C01_mixture_roundtrip_nat (m p : Nat) (hm : 0 < m) (hm' : m < 10 ^ 15) (hp : 0 < p) (hp' : p ≤ 100) (rel : Option Rat) :
+    parseMixture (printMix { abs := some (m : Rat), rel := rel } true) = .ok { abs := some (m : Rat) } ∧
+    parseMixture (printMix { abs := none, rel := some (p : Rat) } true) = .ok { rel := some (p : Rat) } := by
+  have hlm : (Nat.toDigits 10 m).length ≤ 15 := (Nat.length_toDigits_le_iff (by omega) (by omega)).mpr hm'
+  have hlp : (Nat.toDigits 10 p).length ≤ 15 := (Nat.length_toDigits_le_iff (by omega) (by omega)).mpr (by omega)
+  exact ⟨C01_mixture_abs_roundtrip _ rel (by exact_mod_cast Nat.zero_le m) (MixNumOK_nat m hm hlm),
+         C01_mixture_rel_roundtrip _ (by exact_mod_cast Nat.zero_le p) (by exact_mod_cast hp') (MixNumOK_nat p hp hlp)⟩
+
+theorem C01_desc_weight_roundtrip_nat (p : PDesc) (w : Nat) (hw : p.d.weight = (w : Rat)) (hw2 : 2 ≤ w) (hw' : w < 10 ^ 15)
+    (hs : p.d.sym ≠ .none) (hst : stereoRejected p.pre = false) (atom : Option Nat) (htr : p.d.trans = none) :
+    parseDesc (printDesc p true) p.num p.pre atom =
+      .ok { d := { sym := p.d.sym, id := p.d.id, order := orderOfPrefix p.pre, weight := p.d.weight, trans := none, atom := atom.getD 0 },
+            pre := p.pre, num := p.num, noAtom := atom.isNone } := by
+  have hl : (Nat.toDigits 10 w).length ≤ 15 := (Nat.length_toDigits_le_iff (by omega) (by omega)).mpr hw'
+  refine C01_desc_weight_roundtrip p hs hst atom htr ?_ ?_
+  · rw [hw]; intro h; have : w = 1 := by exact_mod_cast h
+    omega
+  · rw [hw]; exact NumTextOK_nat w (by omega) hl
 
 end GBS.P
